@@ -16,6 +16,10 @@ ops   : ("p", k, side, ks)        k-th action the model predicts to change the s
                                   action with required access ROOT|USER and possibly another prob / cost
         ("b", k)                  burn: repeat a cheap action until k%9+1 steps before the step limit
         ("x",)                    reset
+        ("v", k)                  query: one of the environment's read-only public methods (render_state / render_obs /
+                                  render / render_action to a captured stdout, get_action_mask, get_minimum_hops,
+                                  get_score_upper_bound, goal_reached, generate_initial_state,
+                                  generate_random_initial_state, str(env), space.sample()) - must change nothing
         ("g", j, k, side, ks)     generative_step on the j-th saved earlier state (k-th progress action there)
 side 'lo'/'hi' = draw below/above the action's probability, ks varies the seed.
 """
@@ -432,6 +436,72 @@ def _build_harness(source, modes=None):
     return Harness(spec, scn, modes, tag=kind)
 
 
+QUERIES = ["render_state", "render_obs", "render", "render_action", "get_action_mask", "get_minimum_hops",
+           "get_score_upper_bound", "goal_reached", "generate_initial_state", "generate_random_initial_state",
+           "str", "action_space.sample", "observation_space.sample", "render_state(array)", "render_obs(array)"]
+
+
+def do_query(h, k):
+    """call a read-only public method of the environment; returns (name, what changed or None).
+    Exceptions raised by the method itself are swallowed and counted: whether a query works is owned by the
+    property about that query (mask C11, hops / bound C20), not by the property being walked."""
+    import contextlib
+    import io
+    env = h.env
+    name = QUERIES[k % len(QUERIES)]
+    before = (env.current_state.tensor.tobytes(), env.last_obs.tensor.tobytes(), env.steps)
+    cur, last = env.current_state, env.last_obs
+    try:
+        with contextlib.redirect_stdout(io.StringIO()):
+            if name == "render_state":
+                env.render_state()
+            elif name == "render_obs":
+                env.render_obs()
+            elif name == "render":
+                env.render()
+            elif name == "render_action":
+                env.render_action(h.real_actions[k % len(h.real_actions)])
+            elif name == "get_action_mask":
+                if h.flat:
+                    env.get_action_mask()
+            elif name == "get_minimum_hops":
+                env.get_minimum_hops()
+            elif name == "get_score_upper_bound":
+                env.get_score_upper_bound()
+            elif name == "goal_reached":
+                env.goal_reached()
+            elif name == "generate_initial_state":
+                env.generate_initial_state()
+            elif name == "generate_random_initial_state":
+                env.generate_random_initial_state()
+            elif name == "str":
+                str(env)
+            elif name == "action_space.sample":
+                env.action_space.sample()
+            elif name == "observation_space.sample":
+                env.observation_space.sample()
+            elif name == "render_state(array)":
+                env.render_state(state=np.array(env.current_state.tensor, copy=True))
+            elif name == "render_obs(array)":
+                env.render_obs(obs=np.array(env.last_obs.tensor, copy=True))
+    except Exception:
+        import sys
+        from .engine import from_nasim
+        inside, where = from_nasim(sys.exc_info()[2])
+        if not inside:
+            raise
+        h.query_errors = getattr(h, "query_errors", 0) + 1
+    after = (env.current_state.tensor.tobytes(), env.last_obs.tensor.tobytes(), env.steps)
+    what = None
+    if env.current_state is not cur or after[0] != before[0]:
+        what = "current state"
+    elif env.last_obs is not last or after[1] != before[1]:
+        what = "last observation"
+    elif after[2] != before[2]:
+        what = "step counter"
+    return name, what
+
+
 def run_history(h, ops, on_rec, on_reset=None, both_sides=True, do_gen=True):
     """Execute ops.  on_rec(h, rec, twin) is called for every execution
     (twin = the same-seed generative execution preceding a step, or None);
@@ -442,6 +512,16 @@ def run_history(h, ops, on_rec, on_reset=None, both_sides=True, do_gen=True):
             obs, info = h.reset()
             if on_reset:
                 on_reset(h, obs, info)
+            continue
+        if k == "v":
+            name, what = do_query(h, op[1])
+            h.queries = getattr(h, "queries", 0) + 1
+            if what is not None:
+                # a query that changes the environment: reported by the checks that own purity (C04, C13);
+                # every other check stops following this history (its model no longer describes the state)
+                h.query_changed = f"{name}() changed the environment's {what}"
+                h.diverged = h.query_changed
+                return "diverged"
             continue
         if k == "b":
             # burn steps: fast-forward the episode to just before the step limit (large limits are
